@@ -382,6 +382,19 @@ impl Check for CmdCheck {
             };
             programs.push(p);
         }
+        // scale: now and then one command asks for many things at once (more requests registered
+        // with a bridge at one time than any initial table size), most of which are then answered in
+        // a random order while a few stay outstanding for a long time
+        let mut wrng = rng.fork("wide");
+        if !self.enumerate && law.is_none() && wrng.chance(1, if host.is_bridge() { 40 } else { 300 }) {
+            let n = if thorough && wrng.chance(1, 12) { wrng.range(1030, 1100) } else { wrng.range(66, 170) } as usize;
+            let mut wcfg = cfg.clone();
+            wcfg.conts = false;
+            let mut g = ProgGen::new(&mut wrng, wcfg, 100_000);
+            let parts: Vec<Cmd> = (0..n).map(|_| Cmd::Chain(g.chain_public())).collect();
+            programs.insert(0, Cmd::All(parts));
+            sc.max_steps = sc.max_steps.max(4 * n as u32);
+        }
         let mut srng = rng.fork("script");
         let so = gen_script(&mut srng, programs.clone(), host, &sc);
         let buggify = self.buggify && xrng.chance(1, 2) && !programs.iter().any(Cmd::has_races);
@@ -412,6 +425,9 @@ impl Check for CmdCheck {
         }
         let ck = self.checks();
         cov.bump(&format!("host:{:?}", s.scn.host));
+        if s.scn.steps.iter().flatten().any(|a| matches!(a, Action::Event(Event::Run(Cmd::All(xs))) if xs.len() > 60)) {
+            cov.bump("workload:wide_program");
+        }
         let base = run_scenario_on(&s.scn, s.scn.host, &ck, cov)?;
         if base.info.discarded {
             return Ok(base.info);
